@@ -35,7 +35,7 @@ from . import core, devices
 # candidate repairs (exact change test for the applied potential; terminal value re-imposed
 # after the Euler step).  Which one the tree under test implements is decided by TLC
 # (trace validation under both), and that mechanism is then model-checked.
-CODE = dict(MMask=True, MBothHalves=True, MFreshLinks=True, MFixPsi=True, MFixFlag="at_use")
+CODE = dict(MMask=True, MBothHalves=True, MFreshLinks=True, MFixPsi=True, MFixFlag="at_use", MSkipEqual=False)
 PINNED = dict(MTrigger="prev_close", MReimpose="never", MReimposeOnRetry=True, **CODE)
 REPAIRED = dict(MTrigger="exact", MReimpose="configured", MReimposeOnRetry=True, **CODE)
 
@@ -45,11 +45,13 @@ INV_C06_OPS = ["TypeOK", "FixedRowsAreIdentity", "NoOtherRowPinned"]
 INV_C06_STEP = ["TypeOK", "FixedRowsAreIdentity", "NoOtherRowPinned", "PinnedSitesStayPinned", "UnsetMeansFree"]
 
 OPS_DEFAULT = dict(Insts=["strip6", "fan5"], Modes=["none", "terminals", "disabled"], QIds=[1, 2, 3, 4], MaxCalls=6,
+                   DForms=["fresh", "inplace", "view"],
                    Scrs=[False], Dyns=[False], Vs=["zero"], Seeds=["configured"], Forms=["keyword"], MaxSteps=0, MaxIter=0, AMax=3, IMax=3)
-STEP_DEFAULT = dict(Insts=["fan5"], Modes=["none", "terminals", "disabled"], QIds=[1], MaxCalls=0,
+STEP_DEFAULT = dict(Insts=["fan5"], Modes=["none", "terminals", "disabled"], QIds=[1], MaxCalls=0, DForms=["fresh"],
                     Scrs=[False, True], Dyns=[False, True], Vs=["zero", "nonzero", "none"], Seeds=["configured", "other"],
                     Forms=["keyword", "assign"], MaxSteps=3, MaxIter=1, AMax=3, IMax=3)
 TRACE_BOUNDS = dict(Insts=["strip6", "fan5"], Modes=["none", "terminals", "disabled"], QIds=[1], MaxCalls=10 ** 6,
+                    DForms=["fresh", "inplace", "view"],
                     Scrs=[False, True], Dyns=[False, True], Vs=["zero", "nonzero", "none"], Seeds=["configured", "other"],
                     Forms=["keyword"], MaxSteps=10 ** 6, MaxIter=10 ** 6, AMax=250, IMax=250)
 
@@ -61,7 +63,7 @@ def _set(xs):
 def cfg_text(bounds, mech, invariants, spec, view=None, extra=""):
     b = bounds
     lines = ["CONSTANTS"]
-    for k in ("Insts", "Modes", "QIds", "Scrs", "Dyns", "Vs", "Seeds", "Forms"):
+    for k in ("Insts", "Modes", "QIds", "Scrs", "Dyns", "Vs", "Seeds", "Forms", "DForms"):
         lines.append(f" {k} = {_set(b[k])}")
     for k in ("MaxCalls", "MaxSteps", "MaxIter", "AMax", "IMax"):
         lines.append(f" {k} = {b[k]}")
@@ -85,7 +87,8 @@ def export_ops(ctx, bounds, name="OpsCache (sequence export)", sample=None):
     kw = {}
     if sample:
         # in simulation mode TLC evaluates the invariants on every successor of the last state: |QIds| leaves per trace
-        kw = dict(simulate=f"num={max(1, sample // len(bounds['QIds']))}", depth=bounds["MaxCalls"] + 1, workers=1)
+        kw = dict(simulate=f"num={max(1, sample // (len(bounds['QIds']) * len(bounds['DForms'])))}",
+                  depth=bounds["MaxCalls"] + 1, workers=1)
     r = ctx.model_check("OpsCache", cfg, name=name, count=False, timeout=1500, **kw)
     seqs, expect = set(), {}
     for line in r.printed():
@@ -93,7 +96,7 @@ def export_ops(ctx, bounds, name="OpsCache (sequence export)", sample=None):
             continue
         d = json.loads(json.loads(line))
         if d["kind"] == "seq":
-            seqs.add((d["inst"], d["mode"], tuple(d["seq"])))
+            seqs.add((d["inst"], d["mode"], tuple(zip(d["seq"], d["forms"]))))
         else:
             expect[(d["inst"], d["mode"], d["q"])] = d
     if not seqs or not expect:
@@ -176,11 +179,11 @@ def _fresh(tdgl, ops, A, setter=None):
     return f
 
 
-def _ops_event(tdgl, ops, A, qid, fixed, first, scale_lap=None, scale_grad=None):
+def _ops_event(tdgl, ops, A, qid, fixed, first, form="fresh", scale_lap=None, scale_grad=None):
     fresh = _fresh(tdgl, ops, A)
     L, G = _dense(ops.psi_laplacian), _dense(ops.psi_gradient)
     cls, other = _pin_flags(L, fixed)
-    ev = {"ev": "build" if first else "refresh", "q": qid,
+    ev = {"ev": "build" if first else "refresh", "q": qid, "form": form,
           "lap_eq": bool(np.array_equal(L, _dense(fresh.psi_laplacian))),
           "grad_eq": bool(np.array_equal(G, _dense(fresh.psi_gradient))),
           "pinrows": cls, "other": other, "lap": [], "grad": []}
@@ -204,15 +207,40 @@ def replay_ops(tdgl, a, tmp):
     out = []
     for seq in a["seqs"]:
         ops = MeshOperators(mesh, SparseSolver.SUPERLU, fixed_sites=fixed, fix_psi=a["fixpsi"])
+        deliver = _Deliverer(len(mesh.edge_mesh.edges))
         evs = []
-        for qid in seq:
+        for qid, form in seq:
             first = ops.psi_gradient is None          # anchored state: first call builds
-            ops.set_link_exponents(pots[qid])
-            evs.append(_ops_event(tdgl, ops, pots[qid], qid, fixed, first,
+            ops.set_link_exponents(deliver(pots[qid], form))
+            evs.append(_ops_event(tdgl, ops, pots[qid], qid, fixed, first, form,
                                   scale_lap=d["area"], scale_grad=d["len"]))
         out.append(dict(level="ops", inst=d["name"], mode=a["mode"], scr=False, dyn=False, v="zero", seed="configured", form="keyword", v0="zero",
                         exact=True, driven=False, ev=evs))
     return out
+
+
+class _Deliverer:
+    """The equivalent ways a caller can hand the sequence A_1..A_n to set_link_exponents (OpsCache, DForms):
+    fresh   - a newly allocated array per call
+    inplace - ONE work buffer, overwritten in place, the same object passed again
+    view    - a wider base buffer overwritten in place, a view of its first two columns passed (np.asarray
+              returns the view itself: no copy; successive views share the base's memory)"""
+
+    def __init__(self, nedges):
+        self.work = np.zeros((nedges, 2))
+        self.base = np.zeros((nedges, 3))
+
+    def __call__(self, A, form):
+        if form == "fresh":
+            return np.array(A, copy=True)
+        if form == "inplace":
+            self.work[...] = A
+            return self.work
+        if form == "view":
+            self.work[...] = A              # one memory for both aliased forms, as in the model (bufQ)
+            self.base[:, :2] = A
+            return self.base[:, :2]
+        raise ValueError(form)
 
 
 def replay_ops_generated(tdgl, a, tmp):
@@ -240,10 +268,11 @@ def replay_ops_generated(tdgl, a, tmp):
         for seq in a["seqs"]:
             ops = MeshOperators(mesh, SparseSolver.SUPERLU, fixed_sites=fixed, fix_psi=fixpsi)
             evs = []
-            for qid in seq:
+            deliver = _Deliverer(len(x))
+            for qid, form in seq:
                 first = ops.psi_gradient is None
-                ops.set_link_exponents(pots[qid])
-                evs.append(_ops_event(tdgl, ops, pots[qid], qid, fixed, first))
+                ops.set_link_exponents(deliver(pots[qid], form))
+                evs.append(_ops_event(tdgl, ops, pots[qid], qid, fixed, first, form))
             out.append(dict(level="ops", inst="strip6", mode=mode, scr=False, dyn=False, v="zero", seed="configured", form="keyword", v0="zero",
                             exact=False, driven=False, ev=evs, sites=int(len(mesh.sites))))
     return out
@@ -253,7 +282,7 @@ def ops_jobs(seqs, expect, chunk=150):
     """Group the exported sequences by (instance, pinned set) into replay jobs."""
     groups = {}
     for inst, mode, seq in seqs:
-        groups.setdefault((inst, mode), []).append(list(seq))
+        groups.setdefault((inst, mode), []).append([list(c) for c in seq])
     jobs = []
     for (inst, mode), ss in sorted(groups.items()):
         recs = {q: d for (i, m, q), d in expect.items() if i == inst and m == mode}
@@ -708,7 +737,8 @@ def in_parallel(thunks):
 
 
 OPS_MUTANTS = (("MMask", "FixedRowsAreIdentity"), ("MBothHalves", "RefreshEqualsRebuild"),
-               ("MFreshLinks", "RefreshEqualsRebuild"), ("MFixPsi", "NoOtherRowPinned"))
+               ("MFreshLinks", "RefreshEqualsRebuild"), ("MFixPsi", "NoOtherRowPinned"),
+               ("MSkipEqual", "RefreshEqualsRebuild"))
 
 
 def ops_level(ctx, pid, invariants, rnd, nsample, mutants=None, short=4):
@@ -719,32 +749,37 @@ def ops_level(ctx, pid, invariants, rnd, nsample, mutants=None, short=4):
     ctx.cov["bounds"]["OpsCache/SpecOps"] = full
     small = dict(OPS_DEFAULT, QIds=[1, 2, 3], MaxCalls=3)
     # (alphabet, length, how many of the maximal sequences are replayed: None = all)
-    plan = ([(full["QIds"], 1, None), ([1, 2, 3], short, None), ([1, 2, 3, 4], 6, nsample)] if quick else
-            [(full["QIds"], 1, None), ([1, 2, 3], 6, None), ([1, 2, 3, 4], 5, None), ([3, 4, 5, 6, 7, 8], 6, nsample)])
-    thunks = [lambda q=q, n=n, t=t: export_ops(ctx, dict(full, QIds=q, MaxCalls=n), sample=t,
-                                               name=f"OpsCache (export, configurations {q}, length {n}, "
-                                                    f"{'all' if t is None else 'random sample'})") for q, n, t in plan]
+    F, ALL = ["fresh"], ["fresh", "inplace", "view"]
+    plan = ([(full["QIds"], 1, None, F), ([1, 2, 3], short, None, F), ([1, 2], 2, None, ALL), ([1, 2, 3, 4], 6, nsample, ALL)]
+            if quick else
+            [(full["QIds"], 1, None, F), ([1, 2, 3], 6, None, F), ([1, 2, 3, 4], 5, None, F), ([1, 2, 3], 3, None, ALL),
+             ([3, 4, 5, 6, 7, 8], 6, nsample, ALL)])
+    thunks = [lambda q=q, n=n, t=t, f=f: export_ops(ctx, dict(full, QIds=q, MaxCalls=n, DForms=f), sample=t,
+                                                    name=f"OpsCache (export, configurations {q}, delivery {f}, length {n}, "
+                                                         f"{'all' if t is None else 'random sample'})") for q, n, t, f in plan]
     thunks.append(lambda: model_check(ctx, full, REPAIRED, invariants, "SpecOps", "ViewOps", f"OpsCache/SpecOps[{pid}]",
-                                      required=["OpsBuild", "OpsRefresh"]))
+                                      required=["OpsBuild", "OpsRefresh", "OpsRefreshAliased", "OpsRefreshFirstAlias"]))
     for switch, inv in (mutants or OPS_MUTANTS):
         thunks.append(lambda switch=switch, inv=inv: ctx.model_check(
-            "OpsCache", cfg_text(small, dict(REPAIRED, **{switch: False}), [inv], "SpecOps", view="ViewOps"),
-            name=f"OpsCache/SpecOps[modelled mutant {switch}=FALSE must violate {inv}]", expect_violation=inv, count=False))
+            "OpsCache", cfg_text(small, dict(REPAIRED, **{switch: not REPAIRED[switch]}), [inv], "SpecOps", view="ViewOps"),
+            name=f"OpsCache/SpecOps[modelled mutant {switch}={not REPAIRED[switch]} must violate {inv}]", expect_violation=inv, count=False))
     res = in_parallel(thunks)
     seqs, expect, exported = [], {}, 0
-    for (q, n, take), (sq, ex) in zip(plan, res):
+    for (q, n, take, f), (sq, ex) in zip(plan, res):
         exported += len(sq)
         seqs += sq
         expect.update(ex)
     seqs = sorted(set(seqs))
     ctx.cov["behaviours_exported"] = exported
-    ctx.cov["replay_plan"] = [dict(configurations=q, length=n, replayed=("all" if t is None else f"random sample ~{t}"))
-                              for q, n, t in plan]
+    ctx.cov["replay_plan"] = [dict(configurations=q, delivery=f, length=n, replayed=("all" if t is None else f"random sample ~{t}"))
+                              for q, n, t, f in plan]
     ctx.cov["behaviours_replayed"] = len(seqs)
     ctx.cov["exhaustive"] = False
     jobs = ops_jobs(seqs, expect, chunk=60 if quick else 400)
-    gen_seqs = [list(s) for (_, _, s) in seqs[:: max(1, len(seqs) // (40 if quick else 400))]]
-    gen_seqs += [[2, 6, 2, 6, 1, 6], [5, 8, 5, 1, 1, 7], [1, 1, 1], [7]]
+    gen_seqs = [[list(c) for c in s] for (_, _, s) in seqs[:: max(1, len(seqs) // (40 if quick else 400))]]
+    gen_seqs += [[[q, "fresh"] for q in qs] for qs in ([2, 6, 2, 6, 1, 6], [5, 8, 5, 1, 1, 7], [1, 1, 1], [7])]
+    gen_seqs += [[[2, "inplace"], [6, "inplace"], [3, "inplace"], [3, "fresh"], [5, "view"], [8, "view"]],
+                 [[1, "fresh"], [5, "view"], [7, "inplace"], [7, "inplace"], [2, "view"], [1, "inplace"]]]
     jobs.append(("call", dict(module="harness.opscache", func="replay_ops_generated",
                               args=dict(dev="bar", modes=["none", "terminals", "disabled"], seqs=gen_seqs, seed=ctx.seed))))
     return jobs
@@ -752,10 +787,24 @@ def ops_level(ctx, pid, invariants, rnd, nsample, mutants=None, short=4):
 
 def judge_ops_traces(ctx, pid, traces, invariants):
     """Trace validation of the operator-level replays; every rejected trace / false clause is a violation."""
+    # vacuity guard of the aliasing dimension: the caller's buffer, already handed in, is overwritten with a
+    # DIFFERENT potential and handed in again (same object or a view of the same memory)
+    redeliveries = 0
+    for tr in traces:
+        in_buffer, held_is_buffer = None, False      # content of the work buffer; operators refer to it
+        for e in tr["ev"]:
+            if e["form"] != "fresh":
+                redeliveries += held_is_buffer and in_buffer != e["q"]
+                in_buffer = e["q"]
+            held_is_buffer = e["form"] != "fresh"
+    ctx.cov["aliased_redeliveries_with_new_content"] = redeliveries
+    if redeliveries < (100 if ctx.quick else 2000):
+        raise core.MachineryFailure(f"{pid}: only {redeliveries} calls re-deliver an overwritten buffer: aliasing is not exercised")
     acc, bad, _ = validate(ctx, traces, REPAIRED, invariants, f"{pid} operator replays", parts=4 if ctx.quick else 8)
     reported = 0
     for n, tr in enumerate(traces):
-        key = f"{tr['inst']}{'' if tr['exact'] else '(generated mesh)'}/{tr['mode']}/q={[e['q'] for e in tr['ev']]}"
+        key = (f"{tr['inst']}{'' if tr['exact'] else '(generated mesh)'}/{tr['mode']}/q={[e['q'] for e in tr['ev']]}"
+               + ("" if all(e["form"] == "fresh" for e in tr["ev"]) else f"/delivery={[e['form'] for e in tr['ev']]}"))
         ctx.note_case((pid, key), len({e["q"] for e in tr["ev"]}) >= 2)
         if n in acc and n not in bad:
             continue
